@@ -2,6 +2,7 @@ package main
 
 import (
 	"go/token"
+	"go/types"
 	"strings"
 
 	"golang.org/x/tools/go/ssa"
@@ -338,5 +339,55 @@ func ruleStickyWriteError(r *Report) {
 	}
 	if n == 0 {
 		r.Missing(rule, rule+"/none", "no write to the underlying writer found in recordio.Writer")
+	}
+}
+
+// R-direct-io-writer-buffer (C04): the block-aligned writer flushes its whole buffer, and a file opened with O_DIRECT
+// takes whole blocks only. The size the factory allocates for it has to be brought to a multiple of the block size; a
+// size that is passed on as it is makes every flush fail with EINVAL for 1000, 4097, 5000, 100000 …
+func ruleDirectIOWriterBuffer(r *Report) {
+	const rule = "direct-io-writer-buffer"
+	r.Rule(rule, 1, "in DirectIOFactory.CreateNewWriter the size handed to directio.AlignedBlock is related to directio.BlockSize first (a remainder or a round-up by the block size on the size parameter) instead of being the parameter as it is")
+	fn := r.NeedFunc(rule, "recordio.DirectIOFactory.CreateNewWriter")
+	if fn == nil {
+		return
+	}
+	key := rule + "/recordio.DirectIOFactory.CreateNewWriter"
+	blocks := CallsIn(fn, Keys("github.com/ncw/directio.AlignedBlock"))
+	if len(blocks) == 0 {
+		r.Unk(rule, key, fn.Pos(), "no aligned block is allocated")
+		return
+	}
+	var size *ssa.Parameter
+	for _, pa := range fn.Params {
+		if bt, ok := pa.Type().Underlying().(*types.Basic); ok && bt.Info()&types.IsInteger != 0 {
+			size = pa
+		}
+	}
+	bs, haveBS := pkgConst(r.P, "directio", "BlockSize")
+	related := false
+	eachInstr(fn, func(s Site) {
+		bo, ok := s.Instr.(*ssa.BinOp)
+		if !ok {
+			return
+		}
+		switch bo.Op {
+		case token.REM, token.QUO, token.AND, token.AND_NOT:
+		default:
+			return
+		}
+		k, isK := constInt(bo.Y)
+		if !isK || (haveBS && k != int64(bs) && k != int64(bs)-1) || (!haveBS && k != 4096 && k != 4095) {
+			return
+		}
+		if size != nil && valueDependsOn(bo.X, func(x ssa.Value) bool { return x == ssa.Value(size) }) {
+			related = true
+		}
+	})
+	arg := blocks[0].Call().Common().Args[0]
+	if related && arg != ssa.Value(size) {
+		r.OK(rule, key, blocks[0].Pos(), "the buffer size is rounded to the block size")
+	} else {
+		r.Bad(rule, key, blocks[0].Pos(), "the buffer of the direct-I/O writer is allocated with the size option as it is: NewFileWriter(Path, DirectIO(), BufferSizeBytes(1000 | 4097 | 5000 | 100000)) fails with EINVAL at the first flush — with 100000 all Writes return offsets and Close fails, leaving the file without any of them")
 	}
 }
